@@ -95,24 +95,34 @@ def fn_code_hash(fn: Callable, salt: str = None, environment: bytes = None) -> s
 
     def stable_repr(o):
         """Process-independent description of a default parameter value"""
-        try:
-            return json.dumps(MementoCodec.encode_arg(o), sort_keys=True)
-        except (TypeError, ValueError):
-            pass
-        # Values the argument codec cannot describe: use a structural description for the
-        # built-in containers and repr() for value types whose repr() is the same in every
-        # process; anything else is described by its type only.
+        if isinstance(o, MementoFunctionType):
+            # Described by name only: its version is not settled while its module is still
+            # being imported (helpers defined further down are missing), and it reaches the
+            # version of this function through the dependency on its name anyway
+            return "MementoFunction({}, {}, {})".format(
+                o.qualified_name_without_version,
+                stable_repr(list(o.partial_args or ())),
+                stable_repr(dict(o.partial_kwargs or {})),
+            )
+        # Built-in containers are described structurally, other values by the argument codec
+        # where it knows them, by repr() for value types whose repr() is the same in every
+        # process, and by their type only otherwise.
         if isinstance(o, (set, frozenset)):
             items = sorted(stable_repr(x) for x in o)
         elif isinstance(o, (tuple, list)):
             items = [stable_repr(x) for x in o]
         elif isinstance(o, dict):
             items = sorted(stable_repr(k) + ":" + stable_repr(v) for (k, v) in o.items())
-        elif isinstance(
-            o, (bytes, bytearray, complex, range, datetime.time, datetime.timedelta, Decimal)
-        ):
-            items = [repr(o)]
         else:
+            try:
+                return json.dumps(MementoCodec.encode_arg(o), sort_keys=True)
+            except (TypeError, ValueError):
+                pass
+            if isinstance(
+                o,
+                (bytes, bytearray, complex, range, datetime.time, datetime.timedelta, Decimal),
+            ):
+                return type(o).__qualname__ + "(" + repr(o) + ")"
             return type(o).__module__ + ":" + type(o).__qualname__
         return type(o).__qualname__ + "(" + ", ".join(items) + ")"
 
